@@ -561,6 +561,26 @@ def run(ctx):
     ctx.count('bitwise_or_mask_accumulations', n_or, 1)
     if not any(f.rule == 'C05.R10' for f in ctx.findings):
         ctx.ok('C05.R10', 'kmip/**', '%d mask accumulations use |' % n_or)
+    # ---------------- R11 a converter uses everything it extracted, on every path
+    ctx.rule('C05.R11', 'in the converters between wire structures and pie objects (ObjectFactory, SecretFactory) every value extracted into a local is used on every path from its definition to a normal return: a value that one arm of a converter passes on and another arm drops (e.g. the key wrapping data for asymmetric keys) is lost on that arm')
+    n11 = 0
+    from ..dataflow import assigned_names as _an
+    from ..cfg import expr_nodes as _en
+    for rel11, cname11 in ((PIEFAC, 'ObjectFactory'), ('kmip/core/factories/secrets.py', 'SecretFactory')):
+        cl11 = get_class(src.tree(rel11), cname11)
+        for mname11, fn11 in methods(cl11).items():
+            g11 = CFG(fn11)
+            for n in g11.nodes:
+                for var, val, tgt in _an(n):
+                    if not isinstance(val, ast.AST) or var.startswith('_'):
+                        continue
+                    if g11.exit.id not in g11.reachable(n):
+                        continue
+                    n11 += 1
+                    uses = [m_ for m_ in g11.nodes if m_ is not n and any(isinstance(x, ast.Name) and x.id == var and isinstance(x.ctx, ast.Load) for e in _en(m_) for x in ast.walk(e))]
+                    ctx.check(g11.all_paths_pass(n, g11.exit, uses), 'C05.R11', '%s.%s|%s dropped on a path' % (cname11, mname11, var), '%s:%s %s.%s' % (rel11, n.line, cname11, mname11),
+                              '%s is used on every path to a return' % var, 'the converter extracts %s (%s) but a path reaches a return without using it: that part of the object is silently lost on that arm' % (var, U(val)[:60]))
+    ctx.count('converter_locals', n11, 60)
     # ---------------- R7 operations that only read leave the loaded instance untouched
     ctx.rule('C05.R7', 'only Activate, Revoke, Destroy and the attribute operations (Set/Modify/DeleteAttribute) modify an object loaded from the store; every other handler (Get, GetAttributes, GetAttributeList, Locate, the cryptographic-use operations, DeriveKey on its base objects, ...) leaves the loaded instance untouched - a dirty instance is written out by the next commit in the same batch')
     WRITERS = {'_process_activate', '_process_revoke', '_process_destroy', '_process_set_attribute', '_process_modify_attribute', '_process_delete_attribute'}
